@@ -16,10 +16,15 @@ from checks.serial_check import scenario, run_property
 ALL_OPS = ['copy', 'alias', 'bin', 'scale', 'aug', 'augscalar', 'ufunc', 'out', 'setall', 'setitem', 'comp', 'stride', 'abs']
 
 
-def vs_run(wd, maxlen, simulate=None, seed=0):
+PAR_OPS = ['copy', 'alias', 'bin', 'scale', 'aug', 'setpar']  # the parameter-array model (particles: charge and mass)
+
+
+def vs_run(wd, maxlen, simulate=None, seed=0, haspar=False):
     os.makedirs(wd, exist_ok=True)
     cfg = os.path.join(wd, 'VS.cfg')
-    tlc.write_cfg(cfg, spec='Spec', constants=dict(N='4', MAXLEN=str(maxlen), OPS='{' + ','.join(f'"{o}"' for o in ALL_OPS) + '}'),
+    ops = PAR_OPS if haspar else ALL_OPS
+    tlc.write_cfg(cfg, spec='Spec', constants=dict(N='4', MAXLEN=str(maxlen), OPS='{' + ','.join(f'"{o}"' for o in ops) + '}',
+                                                   HASPAR='TRUE' if haspar else 'FALSE'),
                   invariants=['TypeOK', 'ViewShares', 'Export'], properties=['NoOperandMutation', 'NoSpookyAction', 'CopyIndependent'],
                   check_deadlock=False)
     return tlc.run_tlc('ValueSemantics', cfg, workers=8, timeout=1800, heap='8g', simulate=simulate, depth=maxlen + 1 if simulate else None,
@@ -81,7 +86,7 @@ def run(tier, seed):
     rep.assumptions = ev2.get('assumptions', []) + [
         'data-type programs: statements over three names (copy construction, aliasing, binary / unary arithmetic with meshes and '
         'scalars, augmented assignment, numpy function application, out= argument, whole and single item assignment, component '
-        'access, abs); classes mesh, imex_mesh, comp2_mesh, MeshDAE (float64 / complex128), particles, fields, acceleration',
+        'access, strided views, abs; for particles also item assignment into the parameter arrays charge / mass); classes mesh, imex_mesh, comp2_mesh, MeshDAE (float64 / complex128), particles, fields, acceleration',
         'integer-valued data so that float arithmetic is exact']
     rep.rule = ('cases = (program, data-type family) pairs and recorded controller runs; non-trivial program = contains item assignment, '
                 'component access, augmented assignment or an out= argument')
@@ -94,7 +99,11 @@ def run(tier, seed):
         rep.add_tlc(res3, 'GEN ValueSemantics sampled longer programs (simulation)')
         seen = {json.dumps(v['prog']): v for v in res3.prints if isinstance(v, dict) and v.get('vs')}
         progs += list(seen.values())
-        for r in (res, res3):
+        # the parameter-array model (particles carry charge and mass next to positions and velocities): all programs of length 3
+        resp = vs_run(os.path.join(scratch, 'vsp'), 3 if tier == 'quick' else 4, haspar=True)
+        rep.add_tlc(resp, 'MC ValueSemantics with parameter arrays (particles), all programs')
+        progs += [v for v in resp.prints if isinstance(v, dict) and v.get('vs')]
+        for r in (res, res3, resp):
             if r.violation:
                 rep.violation('model.' + r.violation, dict(kind='model', tlc_error=r.error_text[:3000]))
         if not res.ok and not res.violation:
